@@ -33,6 +33,10 @@ HAS_STARTS = ("kLeastAbsErrors", "kMinPathError", "kPathCover", "MinPathCover",
               "kFlowDecompCycles", "kLeastAbsErrorsCycles", "kMinPathErrorCycles", "kPathCoverCycles", "MinPathCoverCycles")
 
 
+# classes with a trusted_edges_for_safety parameter whose trust in an IGNORED element must be void (the element does not count)
+TRUSTABLE = ("kLeastAbsErrors", "kLeastAbsErrorsCycles")          # the two classes whose constructor has the parameter
+
+
 def cyclic(model):
     return model.endswith("Cycles")
 
@@ -284,6 +288,11 @@ def cases(tier):
                                 via = "scale0" if (model in HAS_SCALE and (gi + j) % 2) else "ignore"
                                 yield _mk(model, G, vals, wt, k, "ignore", ignore=[list(e) for e in ign], via=via,
                                           perturb=[[e[0], e[1], v] for e, v in sorted(pert.items())])
+                                if model in TRUSTABLE and (gi + mi + j) % 3 == 0:
+                                    # the ignored elements are ALSO named as trusted for the safety optimisation (a caller trusting "all edges", or the percentile rule
+                                    # picking a heavy ignored edge): ignoring removes the element's influence, so trusting it must not matter either
+                                    yield _mk(model, G, vals, wt, k, "ignore", ignore=[list(e) for e in ign], via=via,
+                                              perturb=[[e[0], e[1], v] for e, v in sorted(pert.items())], trust="all")
                             # additional starts / ends
                             if model in HAS_STARTS:
                                 for j in range(min(nvar if not quick else 1, len(svs))):
@@ -610,6 +619,8 @@ def lib_run(case, feature=True):
                 if case["covlen"] is not None:
                     kw.update(subpath_constraints_coverage_length=case["covlen"], length_attr="length")
         ign = [tuple(e) for e in case["ignore"]]
+        if case.get("trust") == "all" and ign:
+            kw["trusted_edges_for_safety"] = list(ign)          # exactly the ignored elements: nothing is asserted about the elements that count
         if ign:
             if case["via"] == "scale0":
                 kw["error_scaling"] = {e: 0 for e in ign}
@@ -841,7 +852,7 @@ def check(case):
     _silence()
     model, feat = case["model"], case["feature"]
     cyc = cyclic(model)
-    inst = "%s(%s) k=%s wt=%s edges=%s cons=%s cov=%s covlen=%s ignore=%s via=%s perturb=%s starts=%s ends=%s" % (
+    inst = ("[ignored elements also passed as trusted_edges_for_safety] " if case.get("trust") else "") + "%s(%s) k=%s wt=%s edges=%s cons=%s cov=%s covlen=%s ignore=%s via=%s perturb=%s starts=%s ends=%s" % (
         model, feat, case["k"], case["wt"], case["edges"], case["cons"], case["cov"], case["covlen"], case["ignore"], case["via"], case["perturb"], case["starts"], case["ends"])
     tag = {"constraint": "with constraints", "ignore": "with an ignored element" if case["via"] == "ignore" else "with error scale 0", "startend": "with additional starts/ends"}[feat]
     r = lib_run(case, True)
